@@ -6,7 +6,7 @@ def T(name, variant, *args, **kw):
 CHECK = {
   'id': 'C15',
   'level': 'exploration',
-  'rule': ('exhaustive grid: every (value | ordered pair of values joined by ", " or " ") x writer (show_to, print_to %$, print_to with each '
+  'rule': ('exhaustive grid: every (value | ordered pair of values joined by a separator: ", ", " ", the white-space-free ",", ";", "|", "::", "=>" and the framed "a=<1>;b=<2>;", "x:<1>,y:<2>") x writer (show_to, print_to %$, print_to with each '
            'numeric / %s specification) x compatible reader (look_from, scan_from %$, scan_from with each specification) x sink/source kind '
            '(heap String, File over tmpfile(), File over open_memstream/fmemopen) x start position {0,2}; each case writes through the real '
            'library, fetches the text from the sink, reads it back through the real library and compares: sink text == filler + text of each '
@@ -29,7 +29,8 @@ CHECK = {
     'glibc strtod/strtof/sscanf/snprintf are the reference for "the best any reader can do at the printed precision" and for the C semantics of %s and of float readers without l',
     'Float equality is bit equality with strtod of the written text (so -0.0 must come back as -0.0); NaN and infinities are outside the property',
     'numeric specifications without l are exercised only for values in the range of int / unsigned int (C14 convention); left-justified widths are not used (trailing blanks are not part of a number)',
-    'raw %s pairs only for non-empty strings without white space and only with the " " separator (anything else is not reversible by the definition of %s)',
+    'raw %s pairs only for non-empty strings without white space and only with the " " separator (%s stops at white space only, so "a,b" is one token - anything else is not reversible by the definition of %s)',
+    'white-space-free and framed separators are used with pairs from the first 6 values of each pair grid; literals before/after the conversions only where one print_to / scan_from call carries the whole sequence',
     'for a File the position argument is the stream offset: the harness seeks to the start position before reading; sequential look_from calls are separated by a seek over the separator',
     'gcc/clang, glibc stdio (tmpfile, open_memstream, fmemopen) and the sanitizer run-times are trusted',
   ],
@@ -39,7 +40,7 @@ CHECK = {
       T('float', 'base', 'type=float'),
       T('string', 'base', 'type=string'),
       T('int-asan', 'asan', 'type=int'),
-      T('float-asan', 'asan', 'type=float', 'sinks=str,mem'),
+      T('float-asan', 'asan', 'type=float', 'sinks=str,mem', 'repeatvals=4'),
       T('string-asan', 'asan', 'type=string'),
     ],
     'thorough': [
